@@ -37,6 +37,11 @@ def _run_ob(args):
         return dict(paths=0, aborted=0, decisions=0, violations=[], unsupported=[], samples=[], exhaustive=False, failures_by_sig={}, queries=0, solver_s=0.0,
                     wall_s=0.0, leaks=0, name=ob.name, harness=ob.harness, params=ob.params, skipped='time budget of the tier exhausted before this obligation started')
     from engines.pysym import explore
+    try:        # backstop against a runaway path: a worker may not take more than 12 GB of address space
+        import resource
+        resource.setrlimit(resource.RLIMIT_AS, (12 << 30, 12 << 30))
+    except Exception:
+        pass
     mod = sys.modules[modname]
     fn = getattr(mod, ob.harness)
     t0 = time.time()
